@@ -672,6 +672,29 @@ func runGraphCaseOn(c *graphCase, out *RunOut, g0 *simgraph.Graph) []Violation {
 				if len(vs) > 0 {
 					return vs
 				}
+				if (step+len(op.Batch))%2 == 0 {
+					// repair by removal instead of Clear: take nodes out (pool order, rotated by the
+					// step) until the reference is acyclic; the verdict and every other answer must
+					// follow each removal (a cached "cyclic" verdict must not survive the removal of
+					// another member of the cycle)
+					for i := 0; i < len(gPool) && ref.cyclic(); i++ {
+						v := (i + step) % len(gPool)
+						if ref.nodes[v] == nil {
+							continue
+						}
+						k := gPool[v]
+						g.RemoveProvider(k.T.RT(), k.Key, k.Group)
+						ref.remove(v)
+						out.Reach["graph.remove_in_cyclic_state"]++
+						queries(fmt.Sprintf("%s then RemoveProvider(%s)", when, k))
+						if len(vs) > 0 {
+							return vs
+						}
+					}
+					if !ref.cyclic() {
+						continue
+					}
+				}
 				g.Clear()
 				ref = newRef()
 				queries(when + " then Clear")
